@@ -75,6 +75,28 @@ func (m *VerifRWMutex) RUnlock() {
 	}
 }
 
+// VerifProbe reports whether m could be acquired right now; the lock is released at once.
+// The harness uses it for its own direct calls, to tell a lock that some call left held from one that is free.
+func (m *VerifRWMutex) VerifProbe(write bool) bool {
+	if write {
+		if !m.mu.TryLock() {
+			return false
+		}
+
+		m.mu.Unlock()
+
+		return true
+	}
+
+	if !m.mu.TryRLock() {
+		return false
+	}
+
+	m.mu.RUnlock()
+
+	return true
+}
+
 // VerifBatchBegin marks the start of a loop that takes locks in Go map iteration order.
 func VerifBatchBegin() {
 	if h := VerifHook; h != nil {
